@@ -64,6 +64,10 @@ Labels == { << S("lab", << B(1, 0, RectPts), B(1, 3, Rot(LPts, 2)), Pa(2, 0, 2, 
               : q \in { <<2, 2>>, <<1, 2>>, <<4, 3>>, <<2, 3>>, <<5, 5>>, <<0, 2>>, <<3, 1>>, <<9, 9>> } }
      \cup { << S("lab", << B(1, 0, RectPts), B(1, 0, << <<10, 0>>, <<12, 0>>, <<12, 2>>, <<10, 2>> >>),
                            Tx(1, <<2, 2>>, "vdd"), Tx(1, <<11, 1>>, "VDD"), Tx(1, <<50, 50>>, "floating") >>) >> }
+\* a crowded layer: 70 small squares, one wide path and a label that lies inside the path's width but off its centre line
+\* (whatever a converter does differently for layers with many shapes, the label still names the path)
+Crowded == { << S("crowd", [k \in 1..72 |-> IF k <= 70 THEN B(5, 0, << <<100 + (4 * k), 100>>, <<102 + (4 * k), 100>>, <<102 + (4 * k), 102>>, <<100 + (4 * k), 102>> >>)
+                                          ELSE IF k = 71 THEN Pa(5, 0, 4, << <<0, 0>>, <<10, 0>> >>) ELSE Tx(5, <<5, 1>>, "VDD")]) >> }
 Mal == { << S("a", << Sr("missing", <<0, 0>>, FALSE, 0) >>) >>,
          << S("a", << Sr("a", <<0, 0>>, FALSE, 0) >>) >>,
          << S("a", << Sr("b", <<0, 0>>, FALSE, 0) >>), S("b", << B(1, 0, RectPts), Sr("a", <<1, 1>>, TRUE, 90) >>) >>,
@@ -105,7 +109,7 @@ Deep(i) ==
       l3 == S("lvl3", << Sr("lvl2", a3, o3[1], o3[2]), Sr("leaf", a1, o4[1], o4[2]), Pa(7, 0, 2, << <<0, 0>>, <<0, 6>>, <<4, 6>> >>) >>)
   IN Permute(<< l3, l2, l1, Leaf >>, RandomElement(Perms4))
 DeepLibs == { Deep(i) : i \in 1..NDeep }
-Libs == Hier \cup RectOrders \cup NonRect \cup Fanout \cup DeepLibs \cup Arrays \cup Labels \cup Mal \cup Mag1 \cup Lenient
+Libs == Hier \cup RectOrders \cup NonRect \cup Fanout \cup DeepLibs \cup Crowded \cup Arrays \cup Labels \cup Mal \cup Mag1 \cup Lenient
 Init == c \in Libs
 Next == UNCHANGED c
 Spec == Init /\ [][Next]_c
